@@ -4,4 +4,11 @@ go 1.25
 
 require github.com/go-spring/log v0.0.0
 
+require (
+	github.com/antlr4-go/antlr/v4 v4.13.1 // indirect
+	github.com/go-spring/stdlib v0.0.5 // indirect
+	github.com/spf13/cast v1.10.0 // indirect
+	golang.org/x/exp v0.0.0-20240506185415-9bf2ced13842 // indirect
+)
+
 replace github.com/go-spring/log => /repo
